@@ -71,11 +71,15 @@ Definition eof_unpack (data : bytes) : res EofPdu :=
   do f <- fdir_unpack data;
   let p := eof_with_fd p f in
   do _ <- hdr_verify_length_and_checksum (fd_hdr f) data;
+  (* data = data[:end_of_params]: the octets of this PDU in front of its CRC trailer *)
+  let end_of_params :=
+    if cf_crc (h_conf (fd_hdr f)) =? CRC_WITH_CRC then fdir_packet_len f - 2 else fdir_packet_len f in
+  let data := slice_to data end_of_params in
   let expected_min_len := fdir_header_len f + 9 in
   if expected_min_len >? len data then Err ETooShort else
   let current_idx := fdir_header_len f in
   do b <- py_get data current_idx;
-  let cc := Z.land b 240 in
+  let cc := Z.shiftr (Z.land b 240) 4 in
   let current_idx := current_idx + 1 in
   let checksum := slice data current_idx (current_idx + 4) in
   let current_idx := current_idx + 4 in
